@@ -13,13 +13,15 @@ use serde_json::json;
 
 #[derive(Clone, Debug)]
 pub struct Case {
+    /// format version of the header line (the record rules do not depend on it)
+    pub ver: i32,
     /// (section, line) in file order; the section header is emitted whenever the section changes
     pub lines: Vec<(Sec, String)>,
 }
 
 impl Case {
     pub fn text(&self) -> String {
-        let mut s = String::from("osu file format v14\n");
+        let mut s = format!("osu file format v{}\n", self.ver);
         let mut cur: Option<Sec> = None;
         for (sec, l) in &self.lines {
             if cur != Some(*sec) {
@@ -68,7 +70,8 @@ fn value_for(t: &mut Tape, key: &str, class: usize) -> String {
         if key == "Bookmarks" {
             return (*t.pick(&["1,2,3", "5", "100,200", "-7,0,7", "1000"])).to_string();
         }
-        match t.below(5) {
+        match t.below(6) {
+            5 => crate::gen::doc::odd_number(t).to_string(),
             0 => format!("{}", t.int(0, 12)),
             1 => format!("{}.{}", t.int(0, 12), t.int(0, 99)),
             2 => format!("{}", t.int(-100, 100000)),
@@ -231,7 +234,8 @@ pub fn gen_case(t: &mut Tape) -> Case {
         }
         lines.push((sec, line));
     }
-    Case { lines }
+    let ver = *t.pick(&[14, 14, 14, 3, 5, 7, 8, 9, 12, 128, 6, 4, 10, 13]);
+    Case { ver, lines }
 }
 
 pub struct Outcome {
@@ -333,7 +337,7 @@ fn matrix_cases() -> Vec<(String, Case)> {
                     let cell = kv_line(&mut t, key, ci);
                     let after_invalid = kv_line(&mut t, key, 3);
                     // valid, then the cell, then an invalid one: "last valid occurrence wins"
-                    out.push((format!("{key} x {cname}"), Case { lines: vec![(sec, before), (sec, cell), (sec, after_invalid)] }));
+                    out.push((format!("{key} x {cname}"), Case { ver: 14, lines: vec![(sec, before), (sec, cell), (sec, after_invalid)] }));
                 }
             }
         }
@@ -406,7 +410,8 @@ fn case_from_text(text: &str) -> Option<Case> {
         }
         lines.push((sec?, l.to_string()));
     }
-    Some(Case { lines })
+    let ver: i32 = text.lines().next().and_then(|l| l.strip_prefix("osu file format v")).and_then(|v| v.trim().parse().ok()).unwrap_or(14);
+    Some(Case { ver, lines })
 }
 
 pub fn replay(_ctx: &mut Ctx, ext: &str, bytes: &[u8]) -> Result<Option<String>, Fail> {
@@ -467,7 +472,7 @@ pub fn fuzz_text(text: &str) -> Result<bool, Fail> {
         };
         lines.push((sec, l.clone()));
     }
-    let case = Case { lines };
+    let case = Case { ver: 14, lines };
     let file = case.text();
     if frame(&file).trace != fr.trace {
         return Ok(false);
